@@ -270,8 +270,23 @@ func runC08(c *core.Ctx) core.Meta {
 		}
 	}
 
+	checkWGDistribution(c, prov, "R08.4")
+
+	return core.Meta{Level: "other",
+		Explanation: "Structural clauses of the grid partition: one ceil(grid/wg) formula (same dimension, recognised form) at every counting site of the grid builder, the driver and both register initialisations; partial sizes min(grid - id*wg, wg) per dimension, x-fastest enumeration and spawning bounded by the current sizes; wavefront membership keyed on in-group id / 64 with lane bit id % 64 and first flat id quotient*64, the in-group id formula and its inverse decomposition in both modes' lane-id initialisation; the multi-GPU filter's flattening and half-open cumulative ranges. Shared with C02: identical initial registers in both modes (R02.2).",
+		NotDecided:  "the partition as arithmetic over all grid and work-group sizes (every work-item exactly once) is not proved; only the formulas' shapes and their mutual consistency are decided",
+		Assumptions: commonAssumptions}
+}
+
+func exprStr(e ast.Expr) string {
+	return typesExprString(e)
+}
+
+// checkWGDistribution: the multi-GPU work-group filter and the per-GPU ranges
+// (shared by C08 and C18).
+func checkWGDistribution(c *core.Ctx, prov *core.Prov, rule string) {
 	// ---------------- R08.4 filter / distribution consistency ----------------
-	st4 := c.Rule("R08.4", "the multi-GPU work-group filter flattens a work-group id as z*numX*numY + y*numX + x (x fastest, the grid builder's enumeration order) and accepts the half-open range [dist[i], dist[i+1]); the ranges are cumulative and the driver panics if they do not cover all work-groups", 3)
+	st4 := c.Rule(rule, "the multi-GPU work-group filter flattens a work-group id as z*numX*numY + y*numX + x (x fastest, the grid builder's enumeration order) and accepts the half-open range [dist[i], dist[i+1]); the ranges are cumulative and the driver panics if they do not cover all work-groups", 3)
 	for _, fn := range c.SrcFuncs(driverPkg) {
 		if fn.Parent() == nil || core.FuncName(fn.Parent()) != "Driver.processUnifiedMultiGPULaunchKernelCommand" {
 			continue
@@ -288,7 +303,7 @@ func runC08(c *core.Ctx) core.Meta {
 					okR := (bo.Op == token.GEQ && regexp.MustCompile(`\[\*?free:currentGPUIndex\]$`).MatchString(py)) || (bo.Op == token.LSS && regexp.MustCompile(`\[\(\*?free:currentGPUIndex\+1\)\]$`).MatchString(py))
 					st4.Ob(okR)
 					if !okR {
-						c.ReportAt("R08.4", fn, bo.Pos(), "filter:range", "the filter compares the flattened id with "+short(py)+" using "+bo.Op.String()+": each GPU must accept exactly [dist[i], dist[i+1])")
+						c.ReportAt(rule, fn, bo.Pos(), "filter:range", "the filter compares the flattened id with "+short(py)+" using "+bo.Op.String()+": each GPU must accept exactly [dist[i], dist[i+1])")
 					}
 				}
 			}
@@ -298,10 +313,10 @@ func runC08(c *core.Ctx) core.Meta {
 		st4.Ob(okF)
 		st4.Sample("WGFilter: flattened id = %s", short(flat))
 		if !okF {
-			c.ReportAt("R08.4", fn, fn.Pos(), "filter:flatten", "the filter flattens the work-group id as "+short(flat)+", not z*numX*numY + y*numX + x")
+			c.ReportAt(rule, fn, fn.Pos(), "filter:flatten", "the filter flattens the work-group id as "+short(flat)+", not z*numX*numY + y*numX + x")
 		}
 	}
-	if fn := c.MustFunc("R08.4", driverPkg, "Driver.distributeWGToGPUs"); fn != nil {
+	if fn := c.MustFunc(rule, driverPkg, "Driver.distributeWGToGPUs"); fn != nil {
 		st4.Instances++
 		cum := false
 		guard := false
@@ -323,16 +338,8 @@ func runC08(c *core.Ctx) core.Meta {
 		st4.Ob(cum && guard)
 		st4.Sample("distributeWGToGPUs: cumulative ranges=%v, coverage test=%v", cum, guard)
 		if !(cum && guard) {
-			c.ReportAt("R08.4", fn, fn.Pos(), "distribution", "the per-GPU work-group ranges are not cumulative sums checked to cover the total number of work-groups")
+			c.ReportAt(rule, fn, fn.Pos(), "distribution", "the per-GPU work-group ranges are not cumulative sums checked to cover the total number of work-groups")
 		}
 	}
 
-	return core.Meta{Level: "other",
-		Explanation: "Structural clauses of the grid partition: one ceil(grid/wg) formula (same dimension, recognised form) at every counting site of the grid builder, the driver and both register initialisations; partial sizes min(grid - id*wg, wg) per dimension, x-fastest enumeration and spawning bounded by the current sizes; wavefront membership keyed on in-group id / 64 with lane bit id % 64 and first flat id quotient*64, the in-group id formula and its inverse decomposition in both modes' lane-id initialisation; the multi-GPU filter's flattening and half-open cumulative ranges. Shared with C02: identical initial registers in both modes (R02.2).",
-		NotDecided:  "the partition as arithmetic over all grid and work-group sizes (every work-item exactly once) is not proved; only the formulas' shapes and their mutual consistency are decided",
-		Assumptions: commonAssumptions}
-}
-
-func exprStr(e ast.Expr) string {
-	return typesExprString(e)
 }
